@@ -51,7 +51,7 @@ def _file(v0, v1, w):
     c = [("Alias", ["c", "b3"]), ("Parent", ["m1"]), ("zeta", [w]), ("beta", ["q"])]
     cols = [("s", "src", "gene", "1", "90", ".", "+", "."), ("s", "src", "mRNA", "2", "80", "0.5", "+", "."),
             ("s", "src", "exon", ".", ".", ".", "-", "2")]
-    extras = [[], ["x1"], ["y1", "y2"]]
+    extras = [[], ["x1", ""], ["y1", "y2"]]      # incl. an EMPTY trailing extra column (the line ends in a tab)
     lines = []
     for cs, items, ex in zip(cols, (a, b, c), extras):
         lines.append("\t".join(list(cs) + [par.render(items)] + ex))
